@@ -115,6 +115,11 @@ def run(ctx):
             return True
         return False
     V.selftest_corrupt(ctx, "Trace_Conv", rep2["trace"], corrupt, "a recorded to_int result with the last digit changed")
+    # growth beyond C11 (thorough tier only, observation only): the other conversion families, equality and
+    # encoded length, transcribed in Grow.tla; deviations become notes, never violations
+    if not q:
+        rep3 = vlib.run_driver("drv_conv", ["grow", "--n", 6000, "--out", ctx.path("grow")], env=ctx.env())
+        V.observe(ctx, rep3["trace"], "text/tag/float-from-text conversions, equality, encoded length")
     ctx.exhaustive = False
 
 
